@@ -233,5 +233,6 @@ G12_mesh = [
     r('Mesh3D.join_meshes', [TLst(O('Mesh3D'))], name='Mesh3D_join_meshes'),
     r('Mesh3D.remove_faces_only', [O('Mesh3D'), TLst(B)], name='Mesh3D_remove_faces_only'),
     r('Mesh2D.remove_faces_only', [O('Mesh2D'), TLst(B)], name='Mesh2D_remove_faces_only'),
+    r('Polyface3D._verts_faces_edges_from_boundary', [TLst(P3), V3, Z], name='Polyface3D__verts_faces_edges_from_boundary'),
 ]
 LAYERS.append(('G12_mesh', G12_mesh))
